@@ -33,7 +33,7 @@ structure Row where
   /-- `mcs` data is not `None` (a search condition won) -/
   mcsOk : Bool := false
   rules : Option (List String) := none
-  /-- confidence in thousandths -/
+  /-- confidence as an exact integer multiple of 2^-70 (the float value the row reports) -/
   conf : Option Nat := none
   uncurated : Option Str := none
   deriving Repr, DecidableEq
@@ -56,13 +56,13 @@ structure Oracle where
   mergeRules : List String
   /-- curated reaction returned by `PostProcess.fit` for a reaction string, if any -/
   curate : Str → Option Str
-  /-- `np.round(predict_proba, 3)` in thousandths -/
+  /-- `np.round(predict_proba, 3)` (a float32) as an exact integer multiple of 2^-70 -/
   conf : Nat
 
 structure Config where
   rules : List Rule
   ban : List Str
-  /-- confidence threshold in thousandths -/
+  /-- confidence threshold (a float) as an exact integer multiple of 2^-70 -/
   threshold : Nat
 
 variable (O : Oracle)
